@@ -99,17 +99,27 @@ def theorem_names(props_rel):
     return names
 
 
-def lean_sources_of(modules):
-    """All .lean files under lean/MpfVerif (the grep audit covers the whole library)."""
-    out = []
-    for root, _, files in os.walk(os.path.join(LEAN_DIR, "MpfVerif")):
-        for f in files:
-            if f.endswith(".lean"):
-                out.append(os.path.join(root, f))
-    for f in os.listdir(os.path.join(LEAN_DIR, "Drivers")):
-        if f.endswith(".lean"):
-            out.append(os.path.join(LEAN_DIR, "Drivers", f))
-    return out
+def lean_sources_of(modules, prop_id=None):
+    """The Lean sources the property's theorems and driver are built from: the transitive `import MpfVerif.*`
+    closure of its modules and of Drivers/<ID>.lean (the grep audit covers exactly these)."""
+    todo = list(modules)
+    seen = {}
+    files = []
+    if prop_id:
+        drv = os.path.join(LEAN_DIR, "Drivers", prop_id + ".lean")
+        if os.path.exists(drv):
+            files.append(drv)
+            todo += re.findall(r"^\s*import\s+(MpfVerif\.\S+)", open(drv).read(), re.M)
+    while todo:
+        m = todo.pop()
+        if m in seen:
+            continue
+        path = os.path.join(LEAN_DIR, *m.split(".")) + ".lean"
+        seen[m] = path
+        if os.path.exists(path):
+            files.append(path)
+            todo += re.findall(r"^\s*import\s+(MpfVerif\.\S+)", open(path).read(), re.M)
+    return files
 
 
 def regenerate(mod, report):
@@ -148,7 +158,7 @@ def build_and_audit(mod, report):
         return False
     report["build_ok"] = True
     bad = []
-    for f in lean_sources_of(mod.LEAN_MODULES):
+    for f in lean_sources_of(mod.LEAN_MODULES, mod.ID):
         m = FORBIDDEN.search(strip_comments(open(f).read()))
         if m:
             bad.append("%s: %s" % (os.path.relpath(f, LEAN_DIR), m.group(0).strip()))
